@@ -11,6 +11,7 @@ import numpy as np
 
 import common
 from drivers import ranksel
+from gen import translate_rank
 
 RULE = ("spectra injected into the real split routines (decaying, tied, rank-deficient, zero, dyadic, uniform; thresholds "
         "incl. exact ties), random min/max bond and dynamic flag; non-trivial = the routine cut at least one value or "
@@ -20,6 +21,11 @@ TRUSTED = ["correspondence harness: robust_svd replaced in tdvp's/decompositions
            "(ShrinkAt in the model), checked only on the whole-run searches"]
 ASSUMES = ["bond dimensions change only through the split routines (two-site update/gate/jump) or through QR/SVD centre "
            "moves, which cannot enlarge a bond"]
+
+
+def regenerate(ctx):
+    """coq/Gen/RankGen.v from the current source of split_mps_tensor / two_site_svd / truncated_right_svd (fail closed)"""
+    translate_rank.regenerate()
 
 
 def correspond(ctx):
